@@ -6,7 +6,8 @@
 (*                    (k nearest centroids, inside test, fallback, raise),     *)
 (*                    mesh_quad_1.py:213-220, mesh_hex_1.py:169-176,           *)
 (*                    mesh_wedge_1.py:48-55 (simplex split and modulo),        *)
-(*                    mesh_line_1.py:79-94 (digitize on the sorted vertices)   *)
+(*                    mesh_line_1.py element_finder (digitize on the sorted    *)
+(*                    vertices; right ends looked up with right=True)          *)
 (*  - FindOK        the relational demand of C14 on a finder result            *)
 (*  - ProbeRows, P1Exact, LocalExpansion, AgreesWithInterpolate,               *)
 (*    SamePointSameValue : the demands on probes / interpolator / point_source *)
@@ -166,8 +167,12 @@ WitnessRank(m, x, k) ==
       mine == {c \in DOMAIN sm.t : ((c - 1) % nt) + 1 = k /\ InClosedSimplex(CellPts(sm, c), x)}
   IN IMin([j \in 1..Cardinality(mine) |-> Cardinality({i \in DOMAIN sm.t : d[i] < d[SetToSeq(mine)[j]]})])
 
-\* line finder -- mesh_line_1.py:79-94
-FindLineImpl(m, pts) ==
+\* line finder -- mesh_line_1.py element_finder (after fix 6d9cf06)
+\*   k = np.digitize(x, sorted p)                        number of vertices with coordinate <= x
+\*   onright = np.isin(x, p[0, maxt])                    x is the right end of some cell:
+\*   k[onright] = np.digitize(x, sorted p, right=True)   number of vertices with coordinate < x
+\*   elems = cells whose right end vertex is ix[k];  ix[nv] -> IndexError;  none -> ValueError
+LineTables(m) ==
   LET nv   == Len(m.p)
       xs   == [v \in 1..nv |-> m.p[v][1]]
       \* ix = argsort(p[0]) ; stable for equal keys
@@ -175,15 +180,32 @@ FindLineImpl(m, pts) ==
       ix   == [r \in 1..nv |-> CHOOSE v \in 1..nv : rank[v] = r - 1]
       \* maxt[k] = the vertex of cell k with the larger coordinate (argmax: first on ties)
       maxt == [k \in DOMAIN m.t |-> IF xs[m.t[k][2]] > xs[m.t[k][1]] THEN m.t[k][2] ELSE m.t[k][1]]
-      top  == xs[ix[nv]]
-      \* xin[x == p[ix[-1]]] = mean of the two largest coordinates; compared with the doubled coordinates
-      xin2(x) == IF x = top THEN xs[ix[nv]] + xs[ix[nv - 1]] ELSE 2 * x
-      \* np.digitize(xin, sorted p) = number of vertices with coordinate <= xin
-      dig(x)  == Cardinality({v \in 1..nv : 2 * xs[v] <= xin2(x)})
-      oob  == \E n \in DOMAIN pts : dig(pts[n][1]) >= nv                  \* ix[nv] -> IndexError
-      hit(n) == {k \in DOMAIN m.t : maxt[k] = ix[dig(pts[n][1]) + 1]}
+  IN [nv |-> nv, xs |-> xs, ix |-> ix, maxt |-> maxt]
+FindLineImpl(m, pts) ==
+  LET T == LineTables(m)
+      onright(x) == \E k \in DOMAIN m.t : T.xs[T.maxt[k]] = x
+      dig(x)  == IF onright(x) THEN Cardinality({v \in 1..T.nv : T.xs[v] < x})
+                               ELSE Cardinality({v \in 1..T.nv : T.xs[v] <= x})
+      oob  == \E n \in DOMAIN pts : dig(pts[n][1]) >= T.nv                  \* ix[nv] -> IndexError
+      hit(n) == {k \in DOMAIN m.t : T.maxt[k] = T.ix[dig(pts[n][1]) + 1]}
   IN IF oob THEN [err |-> "IndexError", fallback |-> FALSE, res |-> <<>>]
      ELSE IF \E n \in DOMAIN pts : hit(n) = {}                            \* len(elems) < len(x)
+          THEN [err |-> "ValueError", fallback |-> FALSE, res |-> <<>>]
+          ELSE [err |-> "", fallback |-> FALSE, res |-> [n \in DOMAIN pts |-> MinSet(hit(n))]]
+
+\* regression model: the line finder BEFORE fix 6d9cf06 (only the global right end point was brought inside before
+\* np.digitize): TLC must refute FindOK for it on meshes with several components (MC_C14_line_prerepair.cfg)
+FindLineImplPreRepair(m, pts) ==
+  LET T == LineTables(m)
+      nv == T.nv
+      top  == T.xs[T.ix[nv]]
+      \* xin[x == p[ix[-1]]] = mean of the two largest coordinates; compared with the doubled coordinates
+      xin2(x) == IF x = top THEN T.xs[T.ix[nv]] + T.xs[T.ix[nv - 1]] ELSE 2 * x
+      dig(x)  == Cardinality({v \in 1..nv : 2 * T.xs[v] <= xin2(x)})
+      oob  == \E n \in DOMAIN pts : dig(pts[n][1]) >= nv
+      hit(n) == {k \in DOMAIN m.t : T.maxt[k] = T.ix[dig(pts[n][1]) + 1]}
+  IN IF oob THEN [err |-> "IndexError", fallback |-> FALSE, res |-> <<>>]
+     ELSE IF \E n \in DOMAIN pts : hit(n) = {}
           THEN [err |-> "ValueError", fallback |-> FALSE, res |-> <<>>]
           ELSE [err |-> "", fallback |-> FALSE, res |-> [n \in DOMAIN pts |-> MinSet(hit(n))]]
 
